@@ -2,7 +2,7 @@
 
 Space: (i) transcription tree: ALL strings of length <= L over {a, b (in the charset), c (outside it), ' ', NBSP, TAB,
 THIN SPACE, IDEOGRAPHIC SPACE} x logit mode in {peaky+aligned, diffuse, too short to align, absent, legacy (no charset,
-no window), unknown window [None,None]} x min_line_confidence in {0, 0.5} x baseline shape in {2-point, 4-point slanted};
+no window), unknown window [None,None]} x min_line_confidence in {0, 0.5} x baseline shape in {2-point, 4-point slanted, one-pixel speck};
 (ii) structure sweep: 0..2 regions x 0..3 lines with blank / non-blank transcriptions in every position, region boxes
 touching / not touching each page edge, integer and fractional coordinates;
 (ii-b) all ordered pairs and triples of lines over a 7-text alphabet mixing Latin / Arabic script and word-border punctuation,
@@ -21,14 +21,14 @@ ID = 'C06'
 
 MANIFEST = dict(
     technique='explicit-state enumeration of the transcription input tree x logit modes x confidence filter x baseline shapes, a page-structure lattice, and all short strings for the Arabic order conversion; real to_altoxml_string / from_altoxml_string / ArabicHelper vs split()-based reference',
-    text='Bounded exhaustive: every transcription of length <= 3 (quick) / 4 (thorough) over an 8-symbol alphabet (in-charset, out-of-charset, five kinds of white space) in 7 logit modes x 2 confidence filters x 2 baseline shapes, and one level deeper in the two export branches (alignment / fallback); every page structure of 0-2 regions x 0-3 lines with blank/non-blank text and region boxes touching or not touching each page edge; Arabic lines up to length 4; every string up to length 6 / 7 over a 7-symbol mixed Arabic/Latin/digit/delimiter alphabet for the order conversion. Export must not raise, must parse, list every non-blank line once and in order with exactly the split() words (logical order on Arabic lines), write integer geometry, a print space equal to the bounding box of the blocks with margins tiling the page, WC in [0,1], drop only lines below the requested confidence, and re-import must return the same words.',
+    text='Bounded exhaustive: every transcription of length <= 3 (quick) / 4 (thorough) over an 8-symbol alphabet (in-charset, out-of-charset, five kinds of white space) in 7 logit modes x 2 confidence filters x 3 baseline shapes (straight, slanted 4-point, one-pixel), and one level deeper in the two export branches (alignment / fallback); every page structure of 0-2 regions x 0-3 lines with blank/non-blank text and region boxes touching or not touching each page edge; Arabic lines up to length 4; every string up to length 6 / 7 over a 7-symbol mixed Arabic/Latin/digit/delimiter alphabet for the order conversion. Export must not raise, must parse, list every non-blank line once and in order with exactly the split() words (logical order on Arabic lines), write integer geometry, a print space equal to the bounding box of the blocks with margins tiling the page, WC in [0,1], drop only lines below the requested confidence, and re-import must return the same words.',
     note='Posteriors are synthetic; strings longer than the bound and characters outside the alphabets are not explored.',
     ref='3/C06')
 
 ALPHA = ['a', 'b', 'c', ' ', ' ', '\t', ' ', '　']
 MODES = ['aligned', 'diffuse', 'short', 'absent', 'legacy', 'nowindow', 'tight']
 MINCONF = [0.0, 0.5]
-BASELINES = ['straight2', 'slanted4']
+BASELINES = ['straight2', 'slanted4', 'speck']
 AR = ['ب', 'ا', 'x', '1', ' ']
 ORD = ['ب', 'ا', 'x', '1', ' ', '.', '،']
 CHARSET = ['a', 'b', ' ', '​']
@@ -182,10 +182,12 @@ def make_line(lid, text, mode, y=50, baseline='straight2', charset=CHARSET, x0=2
     from pero_ocr.core.layout import TextLine
     if baseline == 'straight2':
         bl = np.asarray([[x0, y], [x1, y]], dtype=float)
+    elif baseline == 'speck':           # a degenerate one-pixel baseline (two identical points): export must still succeed
+        bl = np.asarray([[x0 + 40, y], [x0 + 40, y]], dtype=float)
     else:
         bl = np.asarray([[x0, y], [x0 + 90, y + 9], [x0 + 180, y + 19], [x0 + 270.4, y + 30.9]], dtype=float)
     poly = np.asarray([[x0, y - 20], [x1, y - 20], [x1, y + 12], [x0, y + 12]], dtype=float)
-    if baseline != 'straight2':
+    if baseline == 'slanted4':
         poly = poly + np.asarray([0, 16])
     logits, chars, coords = make_logits(text or '', mode, charset) if text else (None, None, None)
     return TextLine(id=lid, baseline=bl, polygon=poly, heights=[20, 10], transcription=text, logits=logits,
@@ -454,7 +456,7 @@ def check_case(case, ctx):
 
 def describe(tier):
     return {
-        'rule': 'all transcriptions of length<=L over the 8-symbol alphabet x 6 logit modes x 2 confidence filters x 2 baseline shapes (length L+1..Lr: aligned and too-short mode only); '
+        'rule': 'all transcriptions of length<=L over the 8-symbol alphabet x 6 logit modes x 2 confidence filters x 3 baseline shapes (straight, slanted 4-point, one-pixel) (length L+1..Lr: aligned and too-short mode only); '
                 'all page structures (0..2 regions from 5 boxes, 0..3 lines each, <=max_lines lines per page, 3 line texts); all Arabic-script '
                 'strings <=La (2 modes); all strings <=Lo over the 7-symbol order alphabet. state = distinct input. Non-trivial: a '
                 'multi-word transcription exported through the alignment branch; a two-region page; an Arabic line; a string the '
